@@ -24,6 +24,7 @@ func main() {
 	maxPaths := flag.Int("max-paths", 100000, "")
 	trace := flag.Bool("trace", false, "")
 	verbose := flag.Bool("v", false, "")
+	profile := flag.Bool("profile", false, "")
 	flag.Parse()
 	ov, err := symgo.OverlayFromDir(*harness, *repo, false)
 	if err != nil {
@@ -48,6 +49,11 @@ func main() {
 			cfg.Params[a[:i]] = v
 		}
 	}
+	if *profile {
+		cfg.Profile = map[string]int{}
+		*workers = 1
+		*maxPaths = 1
+	}
 	rep := prog.Explore(symgo.Job{Fn: f, Cfg: cfg, Workers: *workers, Solver: *solver, MaxPaths: *maxPaths, SampleMax: 3, Trace: *trace, Deadline: time.Now().Add(10 * time.Minute)})
 	fmt.Printf("paths=%d kinds=%v asserts=%d(sym %d) decisions=%d steps=%d wall=%v truncated=%v\n", rep.Paths, rep.ByKind, rep.Asserts, rep.AssertsSym, rep.Decisions, rep.Steps, rep.Wall, rep.Truncated)
 	fmt.Printf("solver: %+v\n", rep.Solver)
@@ -64,6 +70,20 @@ func main() {
 	for _, v := range rep.Problems {
 		b, _ := json.Marshal(v)
 		fmt.Println("PROBLEM", string(b))
+	}
+	if *profile {
+		type kv struct {
+			k string
+			v int
+		}
+		var l []kv
+		for k, v := range cfg.Profile {
+			l = append(l, kv{k, v})
+		}
+		sort.Slice(l, func(i, j int) bool { return l[i].v > l[j].v })
+		for i := 0; i < 25 && i < len(l); i++ {
+			fmt.Println(l[i].v, l[i].k)
+		}
 	}
 	if *verbose {
 		for _, v := range rep.Samples {
